@@ -5,7 +5,7 @@ func init() {
 		Explanation: "Decides the mechanisms uniqueness rests on, on every path: (R1) the two tables, the pool list and the guarded fields of table-resident objects are accessed only under cacheLock (lockset engine, W for writes); (R2) an object enters the allocated table only after the Create of that very object succeeded; (R3) store-client errors (AlreadyExists included) are returned by the store wrappers; (R4) every IPAM mutator call made by the scheduler plugin has the per-pod key-mutex class held along the call chain from every entry point (one listed exception: Preempt); (R5) in allocateIP a stored UID that differs from the pod's UID ends in an error return before any assign/mutator; (R6) the release API and resync free an IP only behind the not-running and key-unchanged edges, with a fail-safe liveness test, deciding on the record re-read under the pod lock; (R7) release events are queued only for deleted, finished or no-longer-existing pods (an IP freed under a live pod would be handed to a second one). Does not decide that these mechanisms suffice under every interleaving, nor restart behaviour.",
 		Assumptions: []string{"locks identified by (struct type, field); hashed key mutexes treated as one class per pool", "CFG paths, no feasibility reasoning"},
 		Run: func(c *Ctx) {
-			c.Rule("C01.R1", "tables only under the cache lock", 25)
+			c.Rule("C01.R1", "tables only under the cache lock", 35)
 			ruleGuardedBy(c, "C01.R1", []string{cacheLockID}, 40)
 			c.Rule("C01.R2", "cache insert only after the Create of that object succeeded", 3)
 			ruleCreateBeforeCache(c, "C01.R2")
@@ -15,7 +15,7 @@ func init() {
 			rulePodLockAtMutators(c, "C01.R4")
 			c.Rule("C01.R5", "UID guard in allocateIP", 3)
 			ruleUIDGuard(c, "C01.R5")
-			c.Rule("C01.R6", "asynchronous releasers free an ip only behind 'not running' and 'key unchanged', deciding on the re-read record", 12)
+			c.Rule("C01.R6", "asynchronous releasers free an ip only behind 'not running' and 'key unchanged', deciding on the re-read record", 24)
 			ruleReleasers(c, "C01.R6", "reread")
 			ruleReleasers(c, "C01.R6", "guards")
 			ruleReleasers(c, "C01.R6", "fresh")
@@ -32,7 +32,7 @@ func init() {
 		Run: func(c *Ctx) {
 			c.Rule("C04.R1", "re-read under the pod lock", 2)
 			ruleReleasers(c, "C04.R1", "reread")
-			c.Rule("C04.R2", "freeing calls behind 'not running' and 'key unchanged'", 10)
+			c.Rule("C04.R2", "freeing calls behind 'not running' and 'key unchanged'", 14)
 			ruleReleasers(c, "C04.R2", "guards")
 			c.Rule("C04.R3", "fail-safe liveness test", 4)
 			ruleLivenessFailSafe(c, "C04.R3")
@@ -52,7 +52,7 @@ func init() {
 		Explanation: "Decides, in unbind, the release API and the resync closure: (R1) the unassign exists on the provider path, a failed unassign never proceeds to free/re-key and is returned/retried, no unassign follows a free, node and uid are cleared (reserveIP(key,key)) only after a successful unassign, and with a provider the free is preceded by the unassign unless no node is recorded; (R2) the UID guard of allocateIP ends in an error before any assign; (R3) a failed assign fails allocateIP and the pod is bound only after allocateIP succeeded; (R4) node names and addresses in the requests come from the stored/re-read record (unassign) and from the bind's node (assign). Does not decide whole per-IP call sequences across moves and retries (a state machine over a history).",
 		Assumptions: []string{"CFG paths; the provider is reached only through cloudProviderAssignIP/UnAssignIP"},
 		Run: func(c *Ctx) {
-			c.Rule("C10.R1", "unassign before free; failure stops; node/uid cleared after", 14)
+			c.Rule("C10.R1", "unassign before free; failure stops; node/uid cleared after", 18)
 			ruleUnbindCloudOrder(c, "C10.R1")
 			ruleReleasers(c, "C10.R1", "cloud")
 			c.Rule("C10.R2", "UID guard before assign", 3)
